@@ -3,6 +3,7 @@ import Qhttp.Model.Http
 import Qhttp.Props.C01
 import Qhttp.Lemmas.C09Auth
 import Qhttp.Lemmas.Base64
+import Qhttp.Lemmas.C09Run
 /-
   C09 — basic authentication admits exactly the registered credentials.
 -/
@@ -403,5 +404,136 @@ example : verdict exTable (lit ['B','a','s','i','c',' '] ++ b64encode (lit ['u',
 example : verdict exTable (lit ['B','a','s','i','c',' '] ++ b64encode (lit ['u','s','e','r'] ++ [COLON] ++ lit ['P','a','s','s'])) = false :=
   other_users_password_refused exTable (u' := lit ['U','s','e','r']) (p := lit ['p','a','s','s']) (by decide) (by decide) (by decide) (by decide)
 example : ∃ v, verdict exTable v = true := ⟨_, valid_admitted exTable (u := lit ['u','s','e']) (p := lit ['p','a']) (by decide) (by decide)⟩
+
+/-! ### the executable predicate on every run of the model -/
+
+open C09L in
+theorem admitted_append (a c : List Obs) : admitted (a ++ c) = (admitted a || admitted c) := by
+  simp [admitted, List.any_append]
+
+/-- scenario shape: `head` really is the text before the first blank line of the stream
+    (it does not contain a blank line and does not end in CRLF) -/
+def headShape (sc : AuthScn) : Bool := breakOn CRLF2 sc.stream == some (sc.head, [])
+
+/-- sufficient for `headShape`: no CRLFCRLF starts inside `head ++ CR LF CR` -/
+theorem headShape_of_not_infix (sc : AuthScn) (h : ¬ CRLF2 <:+: sc.head ++ CRLF2.dropLast) :
+    headShape sc = true := by
+  unfold headShape AuthScn.stream
+  have := breakOn_of_not_infix (d := CRLF2) (a := sc.head) [] (by decide) h
+  rw [List.append_nil] at this
+  rw [this]; simp
+
+/-- the realm is such that the challenge is one header line carrying one value: no CR (the
+    library does not escape it: a CR LF in the realm would start a new header line) and no `", "`
+    (the predicate's reader `Http.valuesOf` splits a header value at `", "`; see the report) -/
+def realmOk (realm : Bytes) : Bool := !containsByte CR realm && !isInfixB [44, 32] realm
+
+open C09L in
+/-- **C09 on the model**: for every environment (URL oracle, error page), every credential table,
+    every realm without CR and `", "`, and every request head, the history of the run
+    `new; feed (head ++ CRLF CRLF); turn` satisfies the executable predicate that the driver
+    evaluates on implementation traces. -/
+theorem holds_run (env : Env) (sc : AuthScn) (hh : headShape sc = true) (hr : realmOk sc.realm = true) :
+    C09.holds env sc (Scenario.run env sc.scenario).log = true := by
+  have hb : breakOn CRLF2 sc.stream = some (sc.head, []) := by simpa [headShape] using hh
+  have hrun : Scenario.run env sc.scenario =
+      Sock.run env (authApp sc.table sc.realm) [.new, .feed sc.stream, .turn] := rfl
+  simp only [realmOk, Bool.and_eq_true, Bool.not_eq_true'] at hr
+  obtain ⟨hcr, hcs⟩ := hr
+  unfold holds authValue
+  cases he : C01.expect env sc.head with
+  | none =>
+    have hbad : BadHead env sc.head := by
+      intro rh hp
+      unfold C01.expect at he
+      rw [hp] at he
+      cases hu : env.url rh.rawPath with
+      | none => rfl
+      | some pq => obtain ⟨p, q⟩ := pq; simp [hu] at he
+    rw [hrun, run_bad env _ sc.stream sc.head [] hb hbad]
+    simp only [Option.map_none]
+    unfold log400
+    split <;> simp [admitted]
+  | some f =>
+    obtain ⟨rh, p, q, hp, hu, rfl⟩ := (C01.expect_eq_some_iff env sc.head f).1 he
+    simp only [Option.map_some]
+    rw [← verdict_eq_spec]
+    cases hv : verdict sc.table (HeaderMap.value AUTHORIZATION rh.headers) with
+    | true =>
+      obtain ⟨tail, ht⟩ := run_admitted env sc.table sc.realm sc.stream sc.head [] rh p q hb hp hu hv
+      rw [hrun, ht]
+      simp [admitted]
+    | false =>
+      have ht := run_refused env sc.table sc.realm sc.stream sc.head [] rh p q hb hp hu hv
+      rw [hrun, ht]
+      have hw : Obs.wire ([Obs.ev 0, Obs.ev 1, Obs.hp, Obs.mw 0 false] ++
+          (Obs.w (errStart 401 ++ CRLF ++
+              Sock.headerLines (errHeaders [(WWW_AUTH, challenge sc.realm)]
+                (natDigits (errBody env 401).length)) ++ CRLF) ::
+            ((if (errBody env 401).isEmpty then [] else [Obs.w (errBody env 401)]) ++ [Obs.tc])) ++
+          [Obs.ev 2]) =
+          errStart 401 ++ CRLF ++ Sock.headerLines (errHeaders [(WWW_AUTH, challenge sc.realm)]
+            (natDigits (errBody env 401).length)) ++ CRLF ++ errBody env 401 := by
+        cases hbody : errBody env 401 with
+        | nil => simp [Obs.wire]
+        | cons x xs => simp [Obs.wire]
+      rw [hw, parse_401 env sc.realm hcr]
+      have hadm : admitted ([Obs.ev 0, Obs.ev 1, Obs.hp, Obs.mw 0 false] ++
+          (Obs.w (errStart 401 ++ CRLF ++
+              Sock.headerLines (errHeaders [(WWW_AUTH, challenge sc.realm)]
+                (natDigits (errBody env 401).length)) ++ CRLF) ::
+            ((if (errBody env 401).isEmpty then [] else [Obs.w (errBody env 401)]) ++ [Obs.tc])) ++
+          [Obs.ev 2]) = false := by
+        split <;> simp [admitted]
+      have htc : ([Obs.ev 0, Obs.ev 1, Obs.hp, Obs.mw 0 false] ++
+          (Obs.w (errStart 401 ++ CRLF ++
+              Sock.headerLines (errHeaders [(WWW_AUTH, challenge sc.realm)]
+                (natDigits (errBody env 401).length)) ++ CRLF) ::
+            ((if (errBody env 401).isEmpty then [] else [Obs.w (errBody env 401)]) ++ [Obs.tc])) ++
+          [Obs.ev 2]).any Obs.isTc = true := by
+        split <;> simp [Obs.isTc]
+      rw [hadm, htc]
+      simp only [msg401, statusLine_401, valuesOf_auth_401 _ _ (challenge_no_commaSP hcs),
+        valuesOf_cl_401]
+      simp
+
+/-! ### `holds_run`: non-vacuity and evaluated runs -/
+
+def exEnv : Env := { url := fun p => some (p, []), errPage := fun _ r => r }
+def exHeadAuth (cred : List Char) : Bytes :=
+  lit ['G','E','T',' ','/',' ','H','T','T','P','/','1','.','0'] ++ CRLF ++
+  lit ['A','u','t','h','o','r','i','z','a','t','i','o','n',':',' ','B','a','s','i','c',' '] ++ b64encode (lit cred)
+def exScn (realm : List Char) (head : Bytes) : AuthScn := { table := exTable, realm := lit realm, head := head }
+
+-- hypotheses of `holds_run` on concrete scenarios
+example : headShape (exScn ['r'] (exHeadAuth ['u','s','e','r',':','p','a','s','s'])) = true := by decide
+example : realmOk (lit ['m','y',' ','r','e','a','l','m',',','"','x','"']) = true := by decide
+-- the three cases, evaluated
+example : holds exEnv (exScn ['r'] (exHeadAuth ['u','s','e','r',':','p','a','s','s']))
+    (Scenario.run exEnv (exScn ['r'] (exHeadAuth ['u','s','e','r',':','p','a','s','s'])).scenario).log = true := by
+  decide +kernel
+example : admitted
+    (Scenario.run exEnv (exScn ['r'] (exHeadAuth ['u','s','e','r',':','p','a','s','s'])).scenario).log = true := by
+  decide +kernel
+example : holds exEnv (exScn ['r'] (exHeadAuth ['u','s','e','r',':','p','a','s']))
+    (Scenario.run exEnv (exScn ['r'] (exHeadAuth ['u','s','e','r',':','p','a','s'])).scenario).log = true := by
+  decide +kernel
+example : admitted
+    (Scenario.run exEnv (exScn ['r'] (exHeadAuth ['u','s','e','r',':','p','a','s'])).scenario).log = false := by
+  decide +kernel
+example : holds exEnv (exScn ['r'] (lit ['G','A','R','B','A','G','E']))
+    (Scenario.run exEnv (exScn ['r'] (lit ['G','A','R','B','A','G','E'])).scenario).log = true := by
+  decide +kernel
+-- why `realmOk` is a hypothesis: with `", "` in the realm the PREDICATE (not the library) fails
+example : holds exEnv (exScn ['a',',',' ','b'] (exHeadAuth ['u','s','e','r',':','p','a','s']))
+    (Scenario.run exEnv (exScn ['a',',',' ','b'] (exHeadAuth ['u','s','e','r',':','p','a','s'])).scenario).log = false := by
+  decide +kernel
+-- why `headShape` is a hypothesis
+example : holds exEnv (exScn ['r'] (exHeadAuth ['u','s','e','r',':','p','a','s','s'] ++ CRLF))
+    (Scenario.run exEnv (exScn ['r'] (exHeadAuth ['u','s','e','r',':','p','a','s','s'] ++ CRLF)).scenario).log = false := by
+  decide +kernel
+example : holds exEnv (exScn ['r'] (exHeadAuth ['u','s','e','r',':','p','a','s','s']))
+    (Scenario.run exEnv (exScn ['r'] (exHeadAuth ['u','s','e','r',':','p','a','s','s'])).scenario).log = true :=
+  holds_run _ _ (by decide) (by decide)
 
 end Qhttp.C09
